@@ -24,7 +24,8 @@ def post(lines, verdicts):
     if len(sk) > max(3, len(e) // 50):
         out.append(("diff", sk[0], "diff e2e tie not exercised: %d of %d E scenarios could not run (%s)"
                     % (len(sk), len(e), sk[0].split("|", 1)[1].strip()[:80])))
-    # the runner emits a FIXED 33 T, 5 B, 9 C, 12 E cases for every seed (quick); E tolerates 3 skip-env
+    # the runner emits a FIXED 33 T, 5 B, 9 C, 12 E, 30 S cases for every seed (quick); E tolerates 3 skip-env;
+    # S has its own per-shape floors below
     floors = {"T": 25, "B": 4, "C": 8, "E": 8}
     for k, n in floors.items():
         have = [ln for ln in _kind(lines, k) if "| skip-env" not in ln]
@@ -45,7 +46,38 @@ def post(lines, verdicts):
     for pace in ("5", "6", "7"):
         if not [ln for ln in _kind(lines, "T") if ln.split("|")[0].split()[-1] == pace]:
             out.append(("diff", "T", "diff tie not exercised: no T case with pace " + pace))
+    # wave 4: every request SHAPE, with and without a generator, with and without an explicit timestamp. The runner
+    # emits one FIXED 12-request S case per (shape, generator) for every seed and tier (6 requests with, 6 without an
+    # explicit timestamp; set-up failures are retried inside the runner); for the shapes whose frame can be answered
+    # UNPREPARED two scripted UNPREPARED answers make at least one request re-send its frame.
+    for (shape, gen), (ex, ns, rs) in sorted(_shapes(lines, verdicts).items()):
+        what = "shape %s %s generator" % (shape, "with" if gen else "without")
+        if ex < 4 or ns < 4:
+            out.append(("diff", "S", "diff tie not exercised: %s: %d requests with and %d without an explicit timestamp judged, floor 4 / 4"
+                        % (what, ex, ns)))
+        if shape in S_RESENT and rs < 1:
+            out.append(("diff", "S", "diff tie not exercised: %s: no request re-sent after UNPREPARED" % what))
     return out
+
+
+# request shapes of the S cases (harness/src/bin/c18.rs S_KINDS); S_RESENT = those whose frame names a prepared statement
+S_SHAPES = ["q", "i", "p", "x", "j", "s", "w", "y", "z", "b", "c", "P", "V", "W", "M"]
+S_RESENT = set("xjswyzcPVWM")
+
+
+def _shapes(lines, verdicts):
+    """(shape, generator configured) -> [requests with an explicit timestamp, without, re-sent] over the S cases judged ok"""
+    acc = {(k, g): [0, 0, 0] for k in S_SHAPES for g in (0, 1)}
+    for ln, v in zip(lines, verdicts):
+        f = ln.split("|")[0].split()
+        if len(f) == 5 and f[0] == "S" and v and v.startswith("ok resent="):
+            key = (f[3], 1 if int(f[2], 16) else 0)
+            if key in acc:
+                for j, name in enumerate(("explicit", "notset", "resent")):
+                    m = re.search(r"\b%s=(\d+)" % name, v)
+                    if m:
+                        acc[key][j] += int(m.group(1))
+    return acc
 
 
 def extra_coverage(lines, verdicts):
@@ -58,6 +90,11 @@ def extra_coverage(lines, verdicts):
         "scripted_clock_calls_panicking_in_the_warning_branch_as_modelled": _metric(verdicts, lines, "C", "panics"),
         "e2e_requests_resent_after_unprepared": _metric(verdicts, lines, "E", "resent"),
         "e2e_scenarios_not_run_env": sum(1 for ln in _kind(lines, "E") if "| skip-env" in ln),
+        "e2e_shape_cases_judged": sum(1 for ln, v in zip(lines, verdicts) if ln.startswith("S ") and v and v.startswith("ok resent=")),
+        "e2e_rewritten_batch_requests_with_explicit_timestamp": sum(_shapes(lines, verdicts)[(k, g)][0] for k in "VWM" for g in (0, 1)),
+        "e2e_rewritten_batch_requests_without_explicit_timestamp": sum(_shapes(lines, verdicts)[(k, g)][1] for k in "VWM" for g in (0, 1)),
+        "e2e_rewritten_batch_requests_resent": sum(_shapes(lines, verdicts)[(k, g)][2] for k in "VWM" for g in (0, 1)),
+        "e2e_shapes_times_generator_meeting_the_floor": sum(1 for (ex, ns, _r) in _shapes(lines, verdicts).values() if ex >= 4 and ns >= 4),
     }
 
 SPEC = {
@@ -69,9 +106,9 @@ SPEC = {
     "search_n": 6000000,
     "post": post,
     "extra_coverage": extra_coverage,
-    "min_cases": {"quick": 50, "thorough": 300},
+    "min_cases": {"quick": 80, "thorough": 300},
     "nontrivial": lambda ln: "| skip-env" not in ln,
-    "rule": ("the runner emits a FIXED number of cases of every kind for every seed (33 T, 5 B, 9 C, 12 E quick / 60 E thorough) "
+    "rule": ("the runner emits a FIXED number of cases of every kind for every seed (33 T, 5 B, 9 C, 12 E quick / 60 E thorough, 30 S quick / 60 S thorough) "
              "and adds seeded ones up to --n calls. T = one real MonotonicTimestampGenerator (without warnings / default / "
              "with_warning_times(1 us, 0)) shared by 2..16 OS threads x 100..65000 calls; paces 0-3 tight loop, random spins, "
              "yield_now (three FIXED 16/16/8-thread x 3000-call cases of this pace carry the contention floor: they interleave threads even on one "
@@ -86,14 +123,21 @@ SPEC = {
              "and large steps, backward steps, pre-epoch readings, readings beyond i64::MAX us), one reading per call, every "
              "value compared EXACTLY with compute_next_checked - all three arms of compute_next, and the overflow panic of the "
              "warning branch's i64 `last - u_cur` (harness built with overflow checks). E = end-to-end on mocknode: a real Session "
-             "(generator behind a call counter / no generator) sends 30..900 concurrent requests of 8 kinds (unpaged / iter / "
-             "single-page x unprepared / prepared, batch of unprepared statements, batch with a prepared statement), 40% with an "
+             "(generator behind a call counter / no generator) sends 30..900 concurrent requests of 15 kinds (unpaged / iter / "
+             "single-page x unprepared without values / unprepared WITH bound values (prepared on the fly) / prepared; batches: all "
+             "unprepared without values, unprepared + prepared, all prepared, all unprepared WITH values, unprepared with + without "
+             "values, unprepared with values + prepared + unprepared without - the last three make Connection::prepare_batch REWRITE "
+             "the batch via Batch::new_from), 40% with an "
              "explicit statement timestamp (boundary values incl. i64::MIN/MAX); the first EXECUTEs are answered UNPREPARED and "
              "all prepared statements are evicted half way, so frames are RE-SENT; every frame of a request must carry frames_ts "
              "(explicit timestamp changed => viol; for generated timestamps the value is only visible in the frame, so presence, "
              "equality across the frames of a request and pairwise distinctness over requests (=> viol) are what is checked); "
              "number of next_timestamp calls = requests without a statement timestamp + internal frames of the window (re-sent "
-             "frames do not count). non-trivial = every case that ran (skip-env excluded); distinct = distinct case lines (each "
+             "frames do not count). S = the same scenario and verdict with ONE request shape per case (15 shapes x generator / no "
+             "generator, 12 requests, the even ones with an explicit timestamp; shapes whose frame names the prepared statement get "
+             "two scripted UNPREPARED answers, for batches on the BATCH frame itself, so rewritten batches are re-sent too); emitted "
+             "before the E cases, rewritten-batch shapes first; floors per (shape, generator): >= 4 requests with and >= 4 without an "
+             "explicit timestamp judged, >= 1 re-sent where possible. non-trivial = every case that ran (skip-env excluded); distinct = distinct case lines (each "
              "carries the serial number of the run)"),
     "trusted_base": [
         "E cases: vh::mocknode (own CQL v4 frame reader) reports the timestamp field of QUERY/EXECUTE/BATCH frames",
